@@ -189,6 +189,10 @@ Destroy(S) ==
 \* init answered st
 Inited(S, st) == IF st = "OK" THEN [S EXCEPT !.up = TRUE] ELSE S
 
+\* which operation a surplus found at a quiescent point is blamed on (a label for the reader; model-checking
+\* configurations replace it by a constant so that the set of signatures does not depend on the heuristic)
+BlameLabel(lk, susp) == IF lk # "-" THEN lk ELSE susp
+
 \* census r = [fds, inodes, handles, cookies] after the last operation
 ResCheck(S, r) ==
   IF ~S.up THEN S ELSE
@@ -199,7 +203,7 @@ ResCheck(S, r) ==
       chk08 == Tracked(S)
       newleak == chk08 /\ delta > S.slack
       lk == IF newleak /\ S.leakop = "-" THEN S.lastop ELSE S.leakop
-      b15 == IF q THEN {Sig4("C15", S.cfg.tag, IF lk # "-" THEN lk ELSE S.susp, x) : x \in over} ELSE {}
+      b15 == IF q THEN {Sig4("C15", S.cfg.tag, BlameLabel(lk, S.susp), x) : x \in over} ELSE {}
       b08 == IF chk08 /\ delta > S.slack THEN {Sig3("C08", S.lastop, "inode-objects-surplus")}
              ELSE IF chk08 /\ delta < 0 /\ delta < S.slack THEN {Sig3("C08", S.lastop, "inode-objects-missing")} ELSE {}
   IN [S EXCEPT !.viol = @ \cup b15 \cup b08,
